@@ -48,6 +48,15 @@ func validity(r *Resp) string {
 	return "OK"
 }
 
+// respSig is the complete outcome signature of a library-level world.
+func respSig(r *Resp) string {
+	s := validity(r) + "@" + r.FP0
+	for i := range r.Steps {
+		s += "#" + r.Steps[i].Target + "=" + stepSig(&r.Steps[i]) + "~" + r.Steps[i].FP
+	}
+	return s
+}
+
 func stepByTarget(r *Resp, t string) *Step {
 	for i := range r.Steps {
 		if r.Steps[i].Target == t {
@@ -170,6 +179,7 @@ func runC13(c *Ctx) error {
 			p.Close()
 		}
 	}()
+	c.ncases = nprog
 	c.logf("library level: %d programs", nprog)
 	err := ParallelFor(nprog, c.Workers+4, func(i int) error { return st.program(i, thorough) })
 	if err != nil {
@@ -200,6 +210,7 @@ func (st *c13State) program(i int, thorough bool) error {
 	}
 	c.ev.AddRecord(&r0.Rec)
 	c.noteUnseamed(r0)
+	c.event(fmt.Sprintf("c13|%d|ref", i), text, r0.Rec.Choices, respSig(r0))
 	v0 := validity(r0)
 	c.ev.Count("programs", 1)
 	if v0 != "OK" {
@@ -230,7 +241,7 @@ func (st *c13State) program(i int, thorough bool) error {
 	// the pure process dimension: the reference schedule again, in other processes
 	scheds = append(scheds, c13Sched{name: "same-schedule-other-process", cfg: s0(), gmp: 1}, c13Sched{name: "same-schedule-other-process", cfg: s0(), gmp: 2})
 	var r0b *Resp
-	for _, sd := range scheds {
+	for si, sd := range scheds {
 		rq := *req
 		rq.Sched = sd.cfg
 		ri, err := st.pools[sd.gmp].Do(&rq)
@@ -239,6 +250,7 @@ func (st *c13State) program(i int, thorough bool) error {
 		}
 		c.ev.AddRecord(&ri.Rec)
 		c.noteUnseamed(ri)
+		c.event(fmt.Sprintf("c13|%d|%02d|%s", i, si, sd.name), ri.Rec.Choices, respSig(ri))
 		if ri.TimedOut {
 			c.mu.Lock()
 			c.inconclusive++
@@ -353,12 +365,18 @@ func (c *Ctx) candidate13(caseIdx int, prog *Prog, sd c13Sched, target string) {
 			return // it is a listed known finding
 		}
 		if sd.name == "same-schedule-other-process" {
-			// not reproducible with one fresh pair: look for run-to-run variation directly
-			c.confirmUnseamed(caseIdx, prog, target)
+			// not reproducible with one fresh pair: process state left by an earlier
+			// compilation, or run-to-run variation
+			if !c.warmSearch("c13", caseIdx, c.ncases, prog, AllTargets, target) {
+				c.confirmUnseamed(caseIdx, prog, target)
+			}
 			return
 		}
-		c.logf("candidate (case %d, %s, %s) did not reproduce in a fresh process: cross-world contamination inside a worker, not reported", caseIdx, sd.name, target)
-		c.ev.Count("unconfirmed_candidates", 1)
+		c.ev.Count("candidates_not_reproducible_from_a_cold_process", 1)
+		if !c.warmSearch("c13", caseIdx, c.ncases, prog, AllTargets, target) {
+			c.logf("candidate (case %d, %s, %s) reproduced neither in a fresh process nor in a warm session: not reported", caseIdx, sd.name, target)
+			c.ev.Count("unconfirmed_candidates", 1)
+		}
 		return
 	}
 	c.mu.Lock()
